@@ -1,6 +1,10 @@
 package odt
 
-import "encoding/xml"
+import (
+	"encoding/xml"
+	"strconv"
+	"strings"
+)
 
 // ODF XML namespaces
 const (
@@ -42,27 +46,118 @@ type bodyElement struct {
 }
 
 // paragraphXML represents a paragraph element (<text:p>).
+//
+// Paragraphs have mixed content: text interleaved with spans, tabs, line breaks and
+// other inline elements. Typed child slices cannot keep that interleaving, so the
+// element is decoded by hand (see decodeInline): Text holds the complete inline text
+// in document order and Spans the top-level spans (for formatting).
 type paragraphXML struct {
-	XMLName   xml.Name  `xml:"p"`
-	StyleName string    `xml:"style-name,attr"`
-	Spans     []spanXML `xml:"span"`
-	Text      string    `xml:",chardata"`
+	XMLName   xml.Name
+	StyleName string
+	Spans     []spanXML
+	Text      string
 }
 
-// headingXML represents a heading element (<text:h>).
+// UnmarshalXML decodes a paragraph, keeping its inline content in document order.
+func (p *paragraphXML) UnmarshalXML(d *xml.Decoder, start xml.StartElement) error {
+	p.XMLName = start.Name
+	p.StyleName = attrValue(start, "style-name")
+	text, spans, err := decodeInline(d)
+	p.Text, p.Spans = text, spans
+	return err
+}
+
+// headingXML represents a heading element (<text:h>). It is decoded like a paragraph.
 type headingXML struct {
-	XMLName      xml.Name  `xml:"h"`
-	StyleName    string    `xml:"style-name,attr"`
-	OutlineLevel string    `xml:"outline-level,attr"`
-	Spans        []spanXML `xml:"span"`
-	Text         string    `xml:",chardata"`
+	XMLName      xml.Name
+	StyleName    string
+	OutlineLevel string
+	Spans        []spanXML
+	Text         string
 }
 
-// spanXML represents a text span with formatting (<text:span>).
+// UnmarshalXML decodes a heading, keeping its inline content in document order.
+func (h *headingXML) UnmarshalXML(d *xml.Decoder, start xml.StartElement) error {
+	h.XMLName = start.Name
+	h.StyleName = attrValue(start, "style-name")
+	h.OutlineLevel = attrValue(start, "outline-level")
+	text, spans, err := decodeInline(d)
+	h.Text, h.Spans = text, spans
+	return err
+}
+
+// spanXML represents a text span with formatting (<text:span>). Text is the span's
+// complete inline text, including nested spans, tabs and line breaks.
 type spanXML struct {
 	XMLName   xml.Name `xml:"span"`
 	StyleName string   `xml:"style-name,attr"`
 	Text      string   `xml:",chardata"`
+}
+
+// attrValue returns the value of the attribute with the given local name.
+func attrValue(start xml.StartElement, local string) string {
+	for _, a := range start.Attr {
+		if a.Name.Local == local {
+			return a.Value
+		}
+	}
+	return ""
+}
+
+// decodeInline reads the content of a paragraph-like element up to its end tag and
+// returns its text in document order: character data, the content of spans, links and
+// other inline containers, text:tab as a tab, text:line-break as a newline and text:s
+// as its run of spaces. Footnotes, annotations and drawing frames are anchored in the
+// paragraph but are not part of its text and are skipped. The top-level spans are
+// returned separately with their own text.
+func decodeInline(d *xml.Decoder) (string, []spanXML, error) {
+	var sb strings.Builder
+	var spans []spanXML
+	depth := 0
+	spanStart, spanStyle := -1, ""
+	for {
+		tok, err := d.Token()
+		if err != nil {
+			return sb.String(), spans, err
+		}
+		switch t := tok.(type) {
+		case xml.CharData:
+			sb.Write(t)
+		case xml.StartElement:
+			switch t.Name.Local {
+			case "tab":
+				sb.WriteString("\t")
+			case "line-break":
+				sb.WriteString("\n")
+			case "s":
+				n := 1
+				if c, err := strconv.Atoi(attrValue(t, "c")); err == nil && c > 0 {
+					n = c
+				}
+				sb.WriteString(strings.Repeat(" ", n))
+			case "note", "annotation", "frame":
+			default:
+				// span, a, and any other inline container: its content is inline text
+				if depth == 0 && t.Name.Local == "span" {
+					spanStart, spanStyle = sb.Len(), attrValue(t, "style-name")
+				}
+				depth++
+				continue
+			}
+			if err := d.Skip(); err != nil {
+				return sb.String(), spans, err
+			}
+		case xml.EndElement:
+			if depth == 0 {
+				return sb.String(), spans, nil
+			}
+			depth--
+			if depth == 0 && spanStart >= 0 {
+				spans = append(spans, spanXML{XMLName: t.Name, StyleName: spanStyle, Text: sb.String()[spanStart:]})
+				spanStart = -1
+			}
+		}
+	}
 }
 
 // listXML represents a list (<text:list>).
